@@ -155,11 +155,17 @@ struct BlendRowMaskClip;
 
 fn blend_row_mask_clip<T: blend::Blend>(src: &[u32], mask: &[u8], clip: &[u8], dst: &mut [u32]) {
     for (((dst, src), mask), clip) in dst.iter_mut().zip(src).zip(mask).zip(clip) {
-        *dst = alpha_lerp(
+        // alpha_lerp(.., 255, 255) interpolates with 255/256: compute the combined
+        // coverage first so that full coverage times full clip replaces exactly and
+        // a zero product leaves the pixel alone
+        let coverage = muldiv255(*mask as u32, *clip as u32);
+        if coverage == 0 {
+            continue;
+        }
+        *dst = lerp(
             *dst,
             T::blend(*src, *dst),
-            *mask as u32,
-            *clip as u32
+            alpha_to_alpha256(coverage),
         );
     }
 }
